@@ -234,3 +234,78 @@ Section Stmt.
       rewrite <- (app_nil_r s) at 1. rewrite lstrip_s_app. rewrite app_nil_r. exact Hr.
   Qed.
 End Stmt.
+
+(* ================================================================ the probing loops skip exactly the junk lines *)
+(* the probing loops of _collect_if/try_structure and of _parse_simple_lines skip a line when
+   _strip_inline_comment(raw).strip() is empty: exactly the junk lines of _collect_block *)
+
+Lemma lstrip_nil_is_blank t : lstrip t = [] -> is_blank t = true.
+Proof.
+  induction t as [|c r IH]; [reflexivity|]. rewrite is_blank_cons. cbn [lstrip].
+  destruct (is_space c); [exact IH|discriminate].
+Qed.
+Lemma rstrip_blank_inv t : is_blank (rstrip t) = true -> is_blank t = true.
+Proof.
+  induction t as [|c r IH]; [reflexivity|]. cbn [rstrip]. rewrite is_blank_cons.
+  destruct (is_space c && is_nil (rstrip r)) eqn:E.
+  - intros _. apply andb_true_iff in E as [Ec En]. rewrite Ec. cbn [andb].
+    apply rstrip_nil_blank. destruct (rstrip r); [reflexivity|discriminate].
+  - rewrite is_blank_cons. intro H. apply andb_true_iff in H as [Hc Hr]. rewrite Hc, (IH Hr). reflexivity.
+Qed.
+Lemma strip_nil_is_blank t : strip t = [] -> is_blank t = true.
+Proof.
+  unfold strip. intro H. apply rstrip_nil_blank in H.
+  destruct (lstrip_split t) as (w & Hw & E). rewrite E, is_blank_app, Hw, H. reflexivity.
+Qed.
+
+Lemma sic_cut_prefix : forall t s d e p, sic_cut s d e t = Some p -> exists q, t = p ++ ch_hash :: q.
+Proof.
+  induction t as [|c r IH]; intros s d e p H; [discriminate|].
+  cbn [sic_cut] in H.
+  assert (K : forall s' d' e', option_map (cons c) (sic_cut s' d' e' r) = Some p -> exists q, c :: r = p ++ ch_hash :: q).
+  { intros s' d' e' H'. destruct (sic_cut s' d' e' r) as [p'|] eqn:E; [|discriminate].
+    injection H' as <-. destruct (IH _ _ _ _ E) as [q Eq]. exists q. cbn [app]. f_equal. exact Eq. }
+  destruct e; [exact (K _ _ _ H)|].
+  destruct (c =? ch_bslash); [exact (K _ _ _ H)|].
+  destruct ((c =? ch_squote) && negb d); [exact (K _ _ _ H)|].
+  destruct ((c =? ch_dquote) && negb s); [exact (K _ _ _ H)|].
+  destruct ((c =? ch_hash) && negb s && negb d) eqn:Eh; [|exact (K _ _ _ H)].
+  injection H as <-. apply andb_true_iff in Eh as [Eh _]. apply andb_true_iff in Eh as [Eh _].
+  apply Z.eqb_eq in Eh. subst c. exists r. reflexivity.
+Qed.
+
+Lemma lstrip_head_nonspace t c q : lstrip t = c :: q -> is_space c = false.
+Proof.
+  induction t as [|x r IH]; [discriminate|]. cbn [lstrip]. destruct (is_space x) eqn:Ex; [exact IH|].
+  intro H. injection H as <- _. exact Ex.
+Qed.
+
+Lemma probe_blank_is_junk : forall l, is_nil (strip (strip_inline_comment l)) = junk l.
+Proof.
+  intro l. unfold junk, comment_only.
+  destruct (lstrip_split l) as (w & Hw & E).
+  destruct (is_blank l) eqn:Eb.
+  - cbn [orb]. unfold strip_inline_comment. rewrite (sic_cut_blank l Eb).
+    unfold strip. rewrite (lstrip_blank l Eb). reflexivity.
+  - cbn [orb]. unfold strip_inline_comment.
+    destruct (lstrip l) as [|c q] eqn:El.
+    { rewrite app_nil_r in E. subst w. rewrite Hw in Eb. discriminate. }
+    pose proof (lstrip_head_nonspace l c q El) as Hc.
+    cbn [starts_hash]. rewrite E at 1. rewrite (sic_cut_blank_app w (c :: q) Hw).
+    destruct (Z.eqb_spec c ch_hash) as [->|Nh].
+    + cbn [sic_cut]. unfold ch_bslash, ch_squote, ch_dquote, ch_hash. cbn [Z.eqb Pos.eqb andb negb option_map].
+      rewrite app_nil_r.
+      assert (Hr : rstrip w = []) by (apply rstrip_nil_blank; exact Hw).
+      rewrite Hr. reflexivity.
+    + destruct (sic_cut false false false (c :: q)) as [p|] eqn:Ec.
+      * cbn [option_map]. destruct (sic_cut_prefix _ _ _ _ _ Ec) as [q' Eq].
+        destruct p as [|x p'].
+        { cbn [app] in Eq. injection Eq as Eq _. contradiction. }
+        cbn [app] in Eq. injection Eq as <- _.
+        destruct (strip (rstrip (w ++ c :: p'))) eqn:Es; [|reflexivity].
+        apply strip_nil_is_blank in Es. apply rstrip_blank_inv in Es.
+        rewrite (is_blank_nonspace_in c w p' Hc) in Es. discriminate.
+      * cbn [option_map].
+        destruct (strip l) eqn:Es; [|reflexivity].
+        apply strip_nil_is_blank in Es. rewrite Es in Eb. discriminate.
+Qed.
